@@ -54,6 +54,10 @@ def main():
         "engines": [
             {"name": "pyvc", "path": "/verif/pyvc", "serves_properties": [c["property_id"] for c in checks if c["engine"] == "pyvc"],
              "kind_free_text": "deductive verifier built here: symbolic execution of the real Python AST into verification conditions, modular by contract, discharged by z3 5.1 with cvc5 1.0.3 taking unknowns"},
+            {"name": "symtorch", "path": "/verif/symtorch", "serves_properties": [c["property_id"] for c in checks if c["engine"] == "symtorch"],
+             "kind_free_text": "bounded stand-in: the unmodified repo modules imported over a torch shim whose tensor entries are exact polynomials; result compared with a dense specification at small sizes (never counted as proved)"},
+            {"name": "conform", "path": "/verif/conform", "serves_properties": [c["property_id"] for c in checks if c["engine"] == "conform"],
+             "kind_free_text": "interface conformance of call sites against signatures extracted from the installed dependency"},
         ],
         "checks": checks,
         "not_applicable": not_app,
